@@ -79,10 +79,15 @@ fn check_break_assignment(context: &CheckerContext) -> GenericResult<()> {
         let departure = get_departure_time(tour)
             .ok_or_else(|| GenericError::from(format!("cannot get departure for tour '{}'", tour.vehicle_id)))?;
 
+        // NOTE when other activities are performed at the last stop, the last activity of the tour is reached
+        // when the previous one is finished
         let arrival = tour
             .stops
             .last()
-            .map(|stop| parse_time(&stop.schedule().arrival))
+            .map(|stop| {
+                let previous = stop.activities().iter().rev().nth(1).and_then(|activity| activity.time.as_ref());
+                parse_time(previous.map_or(&stop.schedule().arrival, |time| &time.end))
+            })
             .ok_or_else(|| GenericError::from(format!("cannot get arrival for tour '{}'", tour.vehicle_id)))?;
 
         let tour_tw = TimeWindow::new(departure, arrival);
